@@ -342,6 +342,8 @@ func fieldInfluencesResult(fi *FuncInfo, root types.Object, qtype, field string)
 }
 
 func runC03(c *Ctx) {
+	defer checkParamsUsed(c, "C03-R5", "internal/discovery.NewGitBranchFinder", "internal/discovery.NewGlobFinder")
+	defer c03SymlinkWalk(c, "C03-R5")
 	defer checkSearchFlags(c, "C03-R2", "internal/discovery.GitBranchFinder.Find", "internal/discovery.matchEntries")
 	p := c.P
 	c.Rule("C03-R1", "IsIdentical methods read every content field on both operands", 17)
@@ -1436,4 +1438,63 @@ func c03Conservation(c *Ctx, rule string) {
 	}
 	c.Check(okAll && n >= 1, rule, "matchEntries:ambiguous candidates are put back into the pool", sw.Pos(), itoa(n)+" arm(s) for two or more candidates",
 		"when a HEAD rule has several same-named base rules, the candidates taken out of the pool are not all appended back: untouched namesakes are then classified as added (and checked as new), and the old version of the edited one is never reported as removed")
+}
+
+// checkParamsUsed: a constructor hands every one of its parameters on. A
+// parameter that is accepted and then dropped (a field left out of the struct
+// literal while re-ordering it) silently replaces a configured value by the
+// zero value: the schema, the path filter, the allowed owners.
+func checkParamsUsed(c *Ctx, rule string, fns ...string) {
+	for _, q := range fns {
+		fi := c.MustFunc(rule, q)
+		if fi == nil {
+			continue
+		}
+		info := fi.Pkg.TypesInfo
+		used := map[types.Object]bool{}
+		ast.Inspect(fi.Decl.Body, func(n ast.Node) bool {
+			if id, ok := n.(*ast.Ident); ok {
+				if o := info.Uses[id]; o != nil {
+					used[o] = true
+				}
+			}
+			return true
+		})
+		var unused []string
+		sig := fi.Obj.Type().(*types.Signature)
+		k := 0
+		for _, f := range fi.Decl.Type.Params.List {
+			for _, nm := range f.Names {
+				if nm.Name != "_" && !used[info.Defs[nm]] {
+					unused = append(unused, "#"+itoa(k+1)+" ("+types.TypeString(sig.Params().At(k).Type(), func(p *types.Package) string { return p.Name() })+")")
+				}
+				k++
+			}
+		}
+		c.Check(len(unused) == 0, rule, fi.Obj.Name()+":every parameter is handed on", fi.Decl.Pos(), itoa(k)+" parameter(s), all used",
+			"parameter "+strings.Join(unused, ", ")+" of "+fi.Obj.Name()+" is accepted and never used: the value the caller configured is replaced by the zero value of the field it used to fill")
+	}
+}
+
+// c03SymlinkWalk: findSymlinks looks at every entry below the working
+// directory: its walk callback never prunes a directory (fs.SkipDir /
+// fs.SkipAll). A symlink inside a skipped directory is not followed, so rules
+// reachable only through it keep the glob finder's `noop` when their target
+// changes on the branch.
+func c03SymlinkWalk(c *Ctx, rule string) {
+	fi := c.MustFunc(rule, "internal/discovery.findSymlinks")
+	if fi == nil {
+		return
+	}
+	info := fi.Pkg.TypesInfo
+	bad := ""
+	ast.Inspect(fi.Decl.Body, func(n ast.Node) bool {
+		if sel, ok := n.(*ast.SelectorExpr); ok {
+			if v, isVar := info.Uses[sel.Sel].(*types.Var); isVar && v.Pkg() != nil && (v.Pkg().Path() == "io/fs" || v.Pkg().Path() == "path/filepath") && (v.Name() == "SkipDir" || v.Name() == "SkipAll") {
+				bad = c.P.Pos(sel.Pos())
+			}
+		}
+		return true
+	})
+	c.Check(bad == "", rule, "findSymlinks:the walk prunes nothing", fi.Decl.Pos(), "no SkipDir / SkipAll", "the symlink walk skips a directory at "+bad+": symlinks below it are never followed, so the rules they lead to are not re-classified when their target file changes")
 }
